@@ -50,6 +50,14 @@ fn main() {
                 let resp = sdharness::h_ordered::diff(w, &items[1..]);
                 writeln!(out, "{}\t{}", req, resp).unwrap();
             }
+            Some(w @ ("uarr-cmp" | "uarr-apply3")) => {
+                let resp = sdharness::h_unord::uarr(w, &items[1..]);
+                writeln!(out, "{}\t{}", req, resp).unwrap();
+            }
+            Some(w @ ("umap-cmp" | "umap-apply3")) => {
+                let resp = sdharness::h_unord::umap(w, &items[1..]);
+                writeln!(out, "{}\t{}", req, resp).unwrap();
+            }
             Some("apply-bytes") => {
                 let resp = sdharness::h_ordered::apply_bytes(&items[1..]);
                 writeln!(out, "{}\t{}", req, resp).unwrap();
